@@ -91,6 +91,8 @@ type Exec struct {
 	argFT    bool
 	specIdx  []string // index terms contracts have read slices at (instantiation candidates)
 	fnStatic    map[string]Val // closure reference -> statically known function and bindings
+	sfromReg    []sfromEntry   // strings taken from byte ranges (for range-precise havoc)
+	ssubReg     []ssubEntry    // substring terms (for the substring-of-bytes lemma)
 	ifaceStatic map[string]Val // fresh interface constant -> statically known boxed value
 }
 
